@@ -149,6 +149,8 @@ fn c12_twin_reach() {
     assert!(false, "role=twin-end-reached");
 }
 """), functions=["Parser::group_to_matrix"], symbolic="-", shape="assert(false) twin", expect="fail", unwind=unwind))
+    for h in hs:
+        h["array_loops"] = True      # group_to_matrix really runs Modifiers::new() (core::array::from_fn over 26 slots)
     return {
         "harnesses": hs, "cap_s": 900,
         "bounds": ["unwind %d = FType::count()+4 (loops over 26 feature slots, 8 node slots, <=5 manual features, Vec of <=5 pairs)" % unwind,
